@@ -43,6 +43,16 @@ def admissible (ploidy : Nat) (info : PhaseInfo) (rvs : List RV) : List Decision
     | none => [.untagged]
     | some b => (sc.filter fun e => listMax e.2 == listMax b.2).map fun e => decideScores e.1 e.2
 
+/-- the read clouds formed by `prepare` (names of `reads_to_consider`) with their admissible decisions -/
+def clouds (ploidy : Nat) (info : PhaseInfo) (cutoff : Int) (il : Bool) (reads : List SetRead) :
+    List (List String × List Decision) :=
+  (reads.foldl (fun (acc : Prepared × List (List String × List Decision)) r =>
+    let st' := prepareStep ploidy info cutoff il acc.1 r reads
+    let names := st'.processed.drop acc.1.processed.length
+    if names.isEmpty then (st', acc.2) else
+    let rvs := names.flatMap fun n => (reads.filter (·.name == n)).flatMap (·.variants)
+    (st', acc.2 ++ [(names, admissible ploidy info rvs)])) (({} : Prepared), [])).2
+
 def alnRead? (j : Json) : Option AlnRead := do
   match ← asArr? j with
   | [s, r, a, b, vs] => some ⟨← asBool? s, ← asBool? r, ← asInt? a, ← asInt? b, ← rvs? vs⟩
@@ -97,12 +107,15 @@ def handle (op : String) (j : Json) : Option Json :=
     | some pl, some cutoff, some il, some ts, some samples, some alns =>
       let st := samples.foldl (fun (st : Prepared) (s : PhaseInfo × List SetRead) =>
         prepare pl s.1 cutoff il { st with processed := [] } s.2) {}
+      let cl := samples.flatMap fun s => clouds pl s.1 cutoff il s.2
       let ctx : ChromCtx := ⟨st.readToHap, st.bxToHap, cutoff, il, ts⟩
       let tags := alns.map fun a =>
         (tagAln ctx (⟨(), a.name, a.unmapped, a.secondary, a.supplementary, a.refStart, a.refStart, a.bx, {}⟩ : Aln Unit)).tags
       some (Json.mkObj [
         ("tags", ofList ofTags tags),
         ("nMultiple", ofNat st.nMultiple),
+        ("clouds", ofList (fun (c : List String × List Decision) =>
+            Json.arr #[ofList Json.str c.1, ofList ofDecision c.2]) cl),
         ("error", match st.error with | some e => Json.str (errName e) | none => Json.null),
         ("readToHap", ofList (fun (e : String × (Nat × Nat × Int)) =>
             Json.arr #[Json.str e.1, ofNat e.2.1, ofNat e.2.2.1, ofInt e.2.2.2]) st.readToHap)])
